@@ -59,13 +59,15 @@ import (
 	"golang.org/x/arch/x86/x86asm"
 )
 
-// Register classes of the oracle (same numbering as avo's kinds, by design of
-// the comparison in Props/C20.lean; nothing here reads avo's numbering except
-// to choose the width context).
+// Register classes of the oracle.  The class of a measured row is decided by
+// the decoders / by which register file changed on the CPU; it is LABELLED with
+// the number the compiled reg package uses for that kind (reg.KindGP …), so that
+// `h.cls = r.kind` in Props/C20.lean compares like with like whatever the
+// numbering of the Kind constants is.
 const (
-	hwGP  = 1
-	hwVec = 2
-	hwK   = 3
+	hwGP  = int(reg.KindGP)
+	hwVec = int(reg.KindVector)
+	hwK   = int(reg.KindOpmask)
 )
 
 type hwDecoded struct {
@@ -744,6 +746,7 @@ func hwExecute(dir string, rows []*hwRow, summary map[string]any) error {
 				return fmt.Errorf("probe output %q", l)
 			}
 			c, _ := strconv.Atoi(p[0])
+			c = map[int]int{1: hwGP, 2: hwVec, 3: hwK}[c] // the probe's own labels -> the oracle's class numbers
 			n, _ := strconv.Atoi(p[1])
 			m, err := strconv.ParseUint(p[2], 16, 64)
 			if err != nil {
